@@ -20,6 +20,10 @@ type c16Prog struct {
 	Want map[string]int
 	// additional occurrences contributed by the layout chain (template entry points)
 	Layout map[string]int
+	// StrSrc: for the string entry points, this source is rendered on a template that has Page
+	// loaded (a snippet rendered on a page's template), with StrWant as expectation
+	StrSrc  string
+	StrWant map[string]int
 }
 
 var c16Files = Files{
@@ -41,6 +45,8 @@ var c16Files = Files{
 	"p_tmplroot1.vuego":        `<div><template include="tr.vuego"></template></div>`,
 	"p_elseonce.vuego":         `<div v-for="i in three"><p v-if="i == 9">z</p><p v-else v-once>OE</p><p v-if="i == 9">z</p><p v-else-if="i < 5" v-once>OE2</p></div>`,
 	"p_forelseonce.vuego":      `<div v-for="i in three"><p v-for="x in none">x</p><p v-else v-once>OF</p></div>`,
+	"p_forifonce.vuego":        `<p v-for="i in three" v-if="i == 1" v-once>OG</p><p v-for="i in three" v-if="i > 0" v-once>OH</p><p v-for="i in three" v-if="i < 2" v-once>OK</p>`,
+	"p_strself.vuego":          `<em v-once>OZ</em><em v-once>OZ2</em>`,
 	"p_ifonce.vuego":           `<div v-for="i in three"><p v-once v-if="i == 1">OI</p></div>`,
 	"p_layslot.vuego":          "---\nlayout: once_slots\n---\n<template #side><p v-once>LA</p><p v-once>LB</p></template><i>body</i>",
 	"layouts/once_slots.vuego": `<main><aside><slot name="side"></slot></aside><div v-html="content"></div></main>`,
@@ -68,32 +74,34 @@ var c16Files = Files{
 }
 
 var c16Progs = []c16Prog{
-	{"top", "p_top.vuego", map[string]int{"O1": 1, "O2": 1, "O3": 1}, nil},
-	{"for", "p_for.vuego", map[string]int{"O1": 1, "O2": 1}, nil},
-	{"forself", "p_forself.vuego", map[string]int{"O1": 1}, nil},
-	{"inc1", "p_inc1.vuego", map[string]int{"OA": 1}, nil},
-	{"inc2", "p_inc2.vuego", map[string]int{"OA": 1}, nil},
-	{"inc3", "p_inc3.vuego", map[string]int{"OA": 1, "O1": 1}, nil},
-	{"ab", "p_ab.vuego", map[string]int{"OA": 1, "OB": 1, "OB2": 1, "O1": 1}, nil},
-	{"incfor", "p_incfor.vuego", map[string]int{"OA": 1}, nil},
-	{"nested", "p_nested.vuego", map[string]int{"OC": 1, "OAC": 1}, nil},
-	{"slot1", "p_slot1.vuego", map[string]int{"OS": 1, "O1": 1}, nil},
-	{"slot2", "p_slot2.vuego", map[string]int{"OS": 1}, nil},
-	{"slotfor", "p_slotfor.vuego", map[string]int{"OS": 1}, nil},
-	{"if", "p_if.vuego", map[string]int{"O1": 1, "O2": 0, "O3": 1}, nil},
-	{"nest", "p_nest.vuego", map[string]int{"OW": 1, "ON": 1, "O1": 1}, nil},
-	{"nestfor", "p_nestfor.vuego", map[string]int{"OW": 1, "ON": 1, "O1": 1}, nil},
-	{"nestcomp", "p_nestcomp.vuego", map[string]int{"N1W": 1, "N1S": 1, "N2W": 1, "N2S": 1}, nil},
-	{"tmplroot", "p_tmplroot.vuego", map[string]int{"OT": 1, "OU": 1}, nil},
-	{"tmplroot1", "p_tmplroot1.vuego", map[string]int{"OT": 1, "OU": 1}, nil},
-	{"elseonce", "p_elseonce.vuego", map[string]int{"OE": 1, "OE2": 1}, nil},
-	{"forelseonce", "p_forelseonce.vuego", map[string]int{"OF": 1}, nil},
-	{"ifonce", "p_ifonce.vuego", map[string]int{"OI": 1}, nil},
-	{"layslot", "p_layslot.vuego", nil, map[string]int{"LA": 2, "LB": 2}}, // once in the page content, once in the layout slot
-	{"elsefor", "p_elsefor.vuego", map[string]int{"OL1": 1, "OL2": 1, "OL3": 1}, nil},
-	{"elsefor2", "p_elsefor2.vuego", map[string]int{"OL4": 1}, nil},
-	{"tmplonce", "p_tmplonce.vuego", map[string]int{"OR": 1}, nil},
-	{"lay", "p_lay.vuego", map[string]int{"O1": 1, "OA": 1}, map[string]int{"OL": 1, "OL2": 1, "OO": 1, "OA": 2}},
+	{"top", "p_top.vuego", map[string]int{"O1": 1, "O2": 1, "O3": 1}, nil, "", nil},
+	{"for", "p_for.vuego", map[string]int{"O1": 1, "O2": 1}, nil, "", nil},
+	{"forself", "p_forself.vuego", map[string]int{"O1": 1}, nil, "", nil},
+	{"inc1", "p_inc1.vuego", map[string]int{"OA": 1}, nil, "", nil},
+	{"inc2", "p_inc2.vuego", map[string]int{"OA": 1}, nil, "", nil},
+	{"inc3", "p_inc3.vuego", map[string]int{"OA": 1, "O1": 1}, nil, "", nil},
+	{"ab", "p_ab.vuego", map[string]int{"OA": 1, "OB": 1, "OB2": 1, "O1": 1}, nil, "", nil},
+	{"incfor", "p_incfor.vuego", map[string]int{"OA": 1}, nil, "", nil},
+	{"nested", "p_nested.vuego", map[string]int{"OC": 1, "OAC": 1}, nil, "", nil},
+	{"slot1", "p_slot1.vuego", map[string]int{"OS": 1, "O1": 1}, nil, "", nil},
+	{"slot2", "p_slot2.vuego", map[string]int{"OS": 1}, nil, "", nil},
+	{"slotfor", "p_slotfor.vuego", map[string]int{"OS": 1}, nil, "", nil},
+	{"if", "p_if.vuego", map[string]int{"O1": 1, "O2": 0, "O3": 1}, nil, "", nil},
+	{"nest", "p_nest.vuego", map[string]int{"OW": 1, "ON": 1, "O1": 1}, nil, "", nil},
+	{"nestfor", "p_nestfor.vuego", map[string]int{"OW": 1, "ON": 1, "O1": 1}, nil, "", nil},
+	{"nestcomp", "p_nestcomp.vuego", map[string]int{"N1W": 1, "N1S": 1, "N2W": 1, "N2S": 1}, nil, "", nil},
+	{"tmplroot", "p_tmplroot.vuego", map[string]int{"OT": 1, "OU": 1}, nil, "", nil},
+	{"tmplroot1", "p_tmplroot1.vuego", map[string]int{"OT": 1, "OU": 1}, nil, "", nil},
+	{"elseonce", "p_elseonce.vuego", map[string]int{"OE": 1, "OE2": 1}, nil, "", nil},
+	{"forelseonce", "p_forelseonce.vuego", map[string]int{"OF": 1}, nil, "", nil},
+	{"ifonce", "p_ifonce.vuego", map[string]int{"OI": 1}, nil, "", nil},
+	{"strself", "p_strself.vuego", map[string]int{"OZ": 1, "OZ2": 1}, nil, `<b v-once>OX</b><template include="p_strself.vuego"></template><b v-once>OY</b><template include="p_strself.vuego"></template>`, map[string]int{"OX": 1, "OY": 1, "OZ": 1, "OZ2": 1}},
+	{"forifonce", "p_forifonce.vuego", map[string]int{"OG": 1, "OH": 1, "OK": 1}, nil, "", nil},
+	{"layslot", "p_layslot.vuego", nil, map[string]int{"LA": 2, "LB": 2}, "", nil}, // once in the page content, once in the layout slot
+	{"elsefor", "p_elsefor.vuego", map[string]int{"OL1": 1, "OL2": 1, "OL3": 1}, nil, "", nil},
+	{"elsefor2", "p_elsefor2.vuego", map[string]int{"OL4": 1}, nil, "", nil},
+	{"tmplonce", "p_tmplonce.vuego", map[string]int{"OR": 1}, nil, "", nil},
+	{"lay", "p_lay.vuego", map[string]int{"O1": 1, "OA": 1}, map[string]int{"OL": 1, "OL2": 1, "OO": 1, "OA": 2}, "", nil},
 }
 
 func c16Prog_(name string) *c16Prog {
@@ -112,7 +120,7 @@ type c16Case struct {
 
 func (c *c16Case) Key() string { return core.KeyOf(c) }
 
-var c16Markers = []string{"OR", "OL1", "OL2", "OL3", "OL4", "OE2", "OE", "OF", "OI", "LA", "LB", "OT", "OU", "OW", "ON", "N1W", "N1S", "N2W", "N2S", "O1", "O2", "O3", "OA", "OB2", "OB", "OC", "OAC", "OS", "OL2", "OL", "OO"}
+var c16Markers = []string{"OX", "OY", "OZ2", "OZ", "OG", "OH", "OK", "OR", "OL1", "OL2", "OL3", "OL4", "OE2", "OE", "OF", "OI", "LA", "LB", "OT", "OU", "OW", "ON", "N1W", "N1S", "N2W", "N2S", "O1", "O2", "O3", "OA", "OB2", "OB", "OC", "OAC", "OS", "OL2", "OL", "OO"}
 
 func c16Count(out string) map[string]int {
 	m := map[string]int{}
@@ -133,6 +141,10 @@ func (c *c16Case) Run(ctx *core.Ctx) {
 		var buf bytes.Buffer
 		var err error
 		src := stripFM(c16Files[p.Page])
+		strT := tpl.New()
+		if p.StrSrc != "" {
+			src, strT = p.StrSrc, tpl.Load(p.Page)
+		}
 		ctx.Eval(1)
 		ctx.Transition(1)
 		withLayout := false
@@ -148,11 +160,11 @@ func (c *c16Case) Run(ctx *core.Ctx) {
 		case "fragment":
 			err = vue.RenderFragment(&buf, p.Page, data)
 		case "string":
-			err = tpl.New().Fill(data).RenderString(bg, &buf, src)
+			err = strT.Fill(data).RenderString(bg, &buf, src)
 		case "byte":
-			err = tpl.New().Fill(data).RenderByte(bg, &buf, []byte(src))
+			err = strT.Fill(data).RenderByte(bg, &buf, []byte(src))
 		case "reader":
-			err = tpl.New().Fill(data).RenderReader(bg, &buf, strings.NewReader(src))
+			err = strT.Fill(data).RenderReader(bg, &buf, strings.NewReader(src))
 		}
 		where := p.Name + "/" + c.Entry
 		trig := fmt.Sprintf("render#%d", min(i, 1))
@@ -166,6 +178,12 @@ func (c *c16Case) Run(ctx *core.Ctx) {
 		want := map[string]int{}
 		for k, v := range p.Want {
 			want[k] = v
+		}
+		if p.StrSrc != "" && (c.Entry == "string" || c.Entry == "byte" || c.Entry == "reader") {
+			want = map[string]int{}
+			for k, v := range p.StrWant {
+				want[k] = v
+			}
 		}
 		if withLayout {
 			for k, v := range p.Layout {
@@ -194,7 +212,7 @@ func init() {
 	core.Register(&core.Check{
 		ID:    "C16",
 		Level: "model_checking",
-		Rule: "26 placements of 1-4 v-once elements (v-once nested inside v-once at top level, in a loop and in two components included from a loop, in a component whose root is a <template> tag (inside, on and after it), on v-else / v-else-if members and on the v-else of an empty v-for inside a loop, together with v-if, on chain members that are loops themselves, in slot content a page hands to its layout, top level, inside v-for, on the looped element itself, in a component included 1..3 times, in two different components, in a component included from a loop, nested components, slot content used once / twice / in a loop, v-if branches, page + two layouts each including the same component) x 7 entry points (Load+Render, RenderFile, Vue.Render, Vue.RenderFragment, RenderString/Byte/Reader) x every history of <=L renders on one long-lived engine; " +
+		Rule: "28 placements of 1-4 v-once elements (v-once nested inside v-once at top level, in a loop and in two components included from a loop, in a component whose root is a <template> tag (inside, on and after it), on v-else / v-else-if members and on the v-else of an empty v-for inside a loop, together with v-if, together with v-for and a v-if that is false for the first item, on chain members that are loops themselves, in slot content a page hands to its layout, top level, inside v-for, on the looped element itself, in a component included 1..3 times, in two different components, in a component included from a loop, nested components, slot content used once / twice / in a loop, v-if branches, page + two layouts each including the same component, a string template rendered on a template object that has loaded the very file the string includes) x 7 entry points (Load+Render, RenderFile, Vue.Render, Vue.RenderFragment, RenderString/Byte/Reader) x every history of <=L renders on one long-lived engine; " +
 			"oracle: every marked source element occurs exactly once per render (per link of a layout chain), unreached ones zero times. states = renders checked; non-trivial = all",
 		Bounds:      map[string]string{"quick": "L=2 (all ordered pairs of programs)", "thorough": "L=3 (all ordered triples)"},
 		Assumptions: []string{"markers are counted textually as >MARK< in the output"},
